@@ -12,6 +12,10 @@ func c18Op(tag string, idLen int) *spec.Operation {
 	}
 	op := &spec.Operation{}
 	op.ID = vrfStr(tag+".id", idLen)
+	if vrfParam("synthetic", 0) != 0 && vrfBool(tag+".id.synthetic") {
+		// an id spelled like the name the analyzer gives to an operation without id ("GET /p0" is the primary's first path)
+		op.ID = "GET /p0"
+	}
 	return op
 }
 
